@@ -25,12 +25,13 @@
    Traverse order) and prints one CASE per network: the input and the true distances.  The conformance
    harness (harness/cmd/vh-graph) builds every CASE as a real world and runs the real search on it.
 
-   Two places where the code is known to differ from the ideal are switchable, so that the model check of
-   the design passes and the deviation is still a TLC-produced candidate that the harness confirms:
+   One place where the code differed from the ideal is switchable, so that the model check of the design
+   passes and the deviation is still a TLC-produced candidate that the harness runs on the real code:
      OriginTest  = "code": the origin counts as connected only if IsUseable(Segment{path,0,0}) holds, which
-                   is false for every one-way path (Last > First fails);  "whole-way": ToSegment(path).
-   (closed ways: Traverse of the real worlds drops one direction at the closing point; the model keeps
-   both -- see known/C30.jsonl.) *)
+                   is false for every one-way path (Last > First fails);  "whole-way": ToSegment(path)
+                   (ShortestPathAsCode.cfg; repaired in /repo by fixes/C30-origin-on-oneway-ways.diff).
+   Closed ways: Traverse of the real worlds drops one direction at the closing point; the model keeps
+   both -- see known/C30.jsonl and fixes/C30-*-traverse-closed-way.diff. *)
 EXTENDS Integers, Sequences, FiniteSets, TLC, Json, FiniteSetsExt, SequencesExt
 
 CONSTANTS NPoints,     \* enumerated family: model points 0..NPoints-1
